@@ -7,6 +7,6 @@ Set Extraction KeepSingleton.
 From Kardia Require Import Base.Anchor.
 Extraction "../ocaml/C07/model.ml" Anchor.anchor C07Facts.empty_root_hash
   Model.init_state Model.step Model.observe Model.slot Model.nodedb
-  Model.prove Model.verify_proof Model.trie_hash Model.build_root
+  Model.prove Model.verify_proof Model.verify_loop Model.db_of Model.trie_hash Model.build_root
   Model.stack_root Model.derive_sha_stack Model.derive_sha_trie Model.secure_key
   Model.hex_to_compact Model.compact_to_hex Model.keybytes_to_hex.
